@@ -387,6 +387,62 @@ Proof.
   eapply iter_lines_indent; eauto.
 Qed.
 
+(* ---- only long texts are broken, and every break is forced ---- *)
+Lemma wrap_lines_fits (s : str) w (ind : str) : length s <= w ->
+  wrap_lines s w ind = Some (match s with [] => [] | _ => [rstrip s] end).
+Proof.
+  intros H. unfold wrap_lines. cbn [iter_lines].
+  assert (E : Nat.ltb w (length s) = false) by (apply Nat.ltb_ge; exact H).
+  rewrite E. destruct s; reflexivity.
+Qed.
+
+Lemma wrap_lines_broken_only_if_long (s : str) w (ind : str) ls :
+  wrap_lines s w ind = Some ls -> 1 < length ls -> w < length s.
+Proof.
+  intros H L. destruct (Nat.le_gt_cases (length s) w) as [Hle|Hgt]; [|exact Hgt].
+  rewrite (wrap_lines_fits s w ind Hle) in H. inversion H; subst. destruct s; cbn in L; lia.
+Qed.
+
+(* all whitespace after the chosen break position lies beyond the width *)
+Lemma find_break_forced ps w m b : StronglySorted lt ps -> find_break ps w m = Some b ->
+  forall q, In q ps -> b < q -> w < q.
+Proof.
+  induction ps as [|p0 rest IH]; intros Hs; cbn [find_break]; [discriminate|].
+  inversion Hs as [|? ? Hs' Hall]; subst. rewrite Forall_forall in Hall.
+  match goal with |- context [if ?b then _ else _] => destruct b eqn:E end.
+  - intros [= <-] q [<-|Hin] Hq; [lia|].
+    apply andb_prop in E as [E _]. destruct rest as [|q0 rest']; [destruct Hin|].
+    apply Nat.ltb_lt in E. destruct Hin as [<-|Hin]; [exact E|].
+    inversion Hs' as [|? ? _ Hall']; subst. rewrite Forall_forall in Hall'. apply Hall' in Hin. lia.
+  - intros Hf q [<-|Hin] Hq.
+    + apply find_break_spec in Hf as [Hf _]. apply Hall in Hf. lia.
+    + eapply IH; eauto.
+Qed.
+
+Lemma iter_step_break_forced (s : str) w (ind : str) b :
+  find_break (ws_positions s 0) w (length ind) = Some b ->
+  forall q c, nth_error s q = Some c -> is_space c = true -> b < q -> w < q.
+Proof.
+  intros H q c Hn Hc Hq.
+  eapply (find_break_forced _ _ _ _ (ws_positions_sorted s 0) H); [|exact Hq].
+  exact (ws_positions_complete s 0 q c Hn Hc).
+Qed.
+
+Lemma iter_lines_break_forced f (s : str) w (ind : str) l l2 rest :
+  iter_lines (S f) s w ind = Some (l :: l2 :: rest) ->
+  exists b, l = firstn b s /\ w < length s /\
+    iter_lines f (ind ++ skipn (S b) s) w ind = Some (l2 :: rest) /\
+    (forall q c, nth_error s q = Some c -> is_space c = true -> b < q -> w < q).
+Proof.
+  cbn [iter_lines]. destruct (Nat.ltb w (length s)) eqn:E.
+  - apply Nat.ltb_lt in E.
+    destruct (find_break (ws_positions s 0) w (length ind)) as [b|] eqn:F; [|discriminate].
+    destruct (iter_lines f (ind ++ skipn (S b) s) w ind) as [ls|] eqn:R; [|discriminate].
+    intros [= <- <-]. exists b. repeat split; auto.
+    intros q c Hn Hc Hq. eapply iter_step_break_forced; eauto.
+  - destruct s; discriminate.
+Qed.
+
 Lemma newline_wraps buffer lines w : wrap (concat buffer) 79 (s2l "  ") = Ok w ->
   newline buffer lines = Ok ([], lines ++ [w; [c_nl]]).
 Proof.
